@@ -18,7 +18,7 @@ enum OpKind {
   OK_ERR_COPY, OK_ERR_MATCH, OK_ERR_PROP, OK_ERR_CLEAR,
   OK_CA_INIT, OK_CA_ADD, OK_CA_READ, OK_CA_GET, OK_CA_LIST, OK_CA_FILL,
   OK_CR_COPY, OK_CR_MUT, OK_CR_MATH, OK_ATOMFAC,
-  OK_FREE, OK_INIT, OK_DEPRECATED, OK_ERR_NEW,
+  OK_FREE, OK_INIT, OK_DEPRECATED, OK_ERR_NEW, OK_MISC,
   OK_N
 };
 extern const char* const kOpNames[OK_N];
